@@ -114,7 +114,7 @@ def main():
         ],
         "checks": checks,
         "not_applicable": na,
-        "notes": "See DESIGN.md. known_findings.json lists genuine defects (open/fixed; four fix: commits in /repo). Exit codes: 0 held, 1 VIOLATION, 2 infrastructure failure.",
+        "notes": "See DESIGN.md. known_findings.json lists genuine defects (open/fixed; five fix: commits in /repo). Exit codes: 0 held, 1 VIOLATION, 2 infrastructure failure.",
     }
     (VERIF / "MANIFEST.json").write_text(json.dumps(man, indent=1) + "\n")
     print("claimed:", [c["property_id"] for c in checks])
